@@ -52,6 +52,7 @@ func TestFindingA12AbsentValues(t *testing.T) {
 	check("bitmap chunk {0..5,60..63}", dense([2]uint32{0, 5}, [2]uint32{60, 63}), 5)
 	check("bitmap chunk {64..127}", dense([2]uint32{64, 127}), 100)
 	check("array chunk in key 1", BitmapOf(65541), 65541)
+	check("array chunk {65534,65535}", BitmapOf(65534, 65535), 65534)
 	if bad == 0 {
 		t.Log("no disagreement")
 	}
